@@ -125,6 +125,10 @@ type Engine struct {
 	TxFail   int
 	Blocks   int
 	HasherID string
+	// PropOverride relabels violations of auxiliary monitors (e.g. C01 scans on a re-imported chain
+	// are C09 evidence); ClausePrefix says where.
+	PropOverride string
+	ClausePrefix string
 	// hooks
 	OnBlockCommitted func(e *Engine, hash []byte)
 }
@@ -292,6 +296,10 @@ func (e *Engine) ExecBytes(bz []byte, tag string) *TxRec {
 
 // Violate records a violation, writes the replay file and prints the verdict line.
 func (e *Engine) Violate(prop, clause, msg string) {
+	if e.PropOverride != "" && prop != e.PropOverride {
+		clause = e.ClausePrefix + prop + "/" + clause
+		prop = e.PropOverride
+	}
 	r := e.Rep
 	v := Violation{Prop: prop, Clause: clause, Message: msg, Step: e.Step}
 	// de-duplicate by clause: report each clause at most 3 times
